@@ -36,10 +36,11 @@ func colKey(parts []Ident) string {
 
 // Eval gives the value of a PQL expression, read with PQL's grouping (the
 // tree) and the semantics the language documents:
-//   ==, != never NULL (coalesce(…, FALSE));  =~, !~ compare lower-cased;
-//   in, indexing, signs as written;  not/isnull/isnotnull/iff/iif/strcat/
-//   tolower/toupper/now/count/countif as documented; any other function by
-//   name with its arguments.
+//
+//	==, != never NULL (coalesce(…, FALSE));  =~, !~ compare lower-cased;
+//	in, indexing, signs as written;  not/isnull/isnotnull/iff/iif/strcat/
+//	tolower/toupper/now/count/countif as documented; any other function by
+//	name with its arguments.
 func Eval(e *E, c *EvalCtx) val.V {
 	switch e.K {
 	case "paren":
